@@ -190,12 +190,19 @@ def eval_pair(case, rng):
     related = v != 0x0304 and rng.random() < 0.7
     nconn = rng.choice([2, 2, 3])
     flows = []
+    # unrelated connections: half of the time the later ones use another suite of the same version, or any other version and suite (other key / IV / MAC lengths,
+    # another PRF hash) - whatever a derivation keeps from one connection must not shape the keys of the next
+    mix = "same-suite" if related else rng.choice(["same-suite", "same-version", "any"])
     for k in range(nconn):
         resume = rng.choice(flows) if flows and related else None
-        fl = gen.random_tls_flow(rng, k, nmax=4, version=v, code=code, segkinds=("mss", "whole"), resume_of=resume)
-        if resume is None and flows and related:
-            continue
-        flows.append(fl)
+        vk, ck = v, code
+        if k and mix != "same-suite":
+            for _ in range(40):
+                v2, c2, _n, _p2 = suites.pick(rng)
+                if mix == "any" or v2 == v:
+                    vk, ck = v2, c2
+                    break
+        flows.append(gen.random_tls_flow(rng, k, nmax=4, version=vk, code=ck, segkinds=("mss", "whole"), resume_of=resume))
     mode = rng.choice(["one-capture", "one-capture", "run-per-connection"])
     keys = scene.keylog_text(flows, rng)
     mon = monitors.TlsStateMonitor()
@@ -212,8 +219,8 @@ def eval_pair(case, rng):
             files[f"in{k}.pcapng"] = scene.capture(scene.stamp(scene.merge([fl], rng, "concat"), rng))
             argv.append(["-i", f"{{dir}}/in{k}.pcapng", "-o", "{dir}/out.pcapng", "-s", "{dir}/keys.log"])
         res = runner.run_tlexport(files, argv, child_setup=mon.install)
-    out = {"cls": ["pair", suites.VNAME[v], p["mode"], "related" if related else "unrelated", mode, len(flows)],
-           "tags": [f"pair:{suites.VNAME[v]}:{'resumption' if related else 'unrelated'}:{mode}"],
+    out = {"cls": ["pair", suites.VNAME[v], p["mode"], "related" if related else "unrelated-" + mix, mode, len(flows)],
+           "tags": [f"pair:{suites.VNAME[v]}:{'resumption' if related else 'unrelated-' + mix}:{mode}"],
            "sample": {"case": case["id"], "suite": suites.REGISTRY[code], "version": suites.VNAME[v], "connections": [f.label + " " + f.ep.describe() for f in flows], "mode": mode}}
     fail = e2e.run_failed(res)
     if fail:
@@ -239,7 +246,7 @@ def eval_pair(case, rng):
         best = None
         for e in last.values():
             m = []
-            k = compare_installed(e, fl.conn, fl.conn.spec, p, m)
+            k = compare_installed(e, fl.conn, fl.conn.spec, suites.parse_name(suites.REGISTRY[fl.conn.spec.suite]), m)
             if k and (best is None or len(m) < len(best[1])):
                 best = (k, m)
         if best is None:
